@@ -95,4 +95,121 @@ theorem reach_inv_nextReader (c : Conn) (h : ReachInv c) : ReachInv (nextReader 
 theorem reach_inv_read (c : Conn) (rid k : Nat) (hk : 0 < k) (h : ReachInv c) : ReachInv (mrRead c rid k).2 := by
   first | exact ReaderMore.mrRead_reachInv .. | (apply ReaderMore.mrRead_reachInv <;> assumption)
 
+/-! ### non-vacuity -/
+section NonVacuity
+set_option linter.defProp false
+open WS WS.SrcLaw WS.Codec WS.ReaderDecodes WS.CutLogic WS.ReaderMore
+
+/-- a 4096-byte bufio.Reader with 3 buffered bytes; the transport delivers 2 more and then EOF -/
+def witBuf : Buf :=
+  { size := 4096, buf := [0x82, 0x7E, 0x01], t := { chunks := [[0x00, 0xAA]], term := .eof }, total := 5 }
+
+def witBuf_wf : WF witBuf := ⟨by decide, by decide, by decide, (by intro e h; cases h)⟩
+
+/-- non-vacuity of `header_cut_is_error`: 5 bytes arrive where 8 are needed -/
+example : (witBuf.take 8).1 = [0x82, 0x7E, 0x01, 0x00, 0xAA] ∧ (witBuf.take 8).2.1 = some .unexpectedEOF ∧
+    (witBuf.take 8).2.2.pending = [] ∧ WF (witBuf.take 8).2.2 ∧ Same witBuf (witBuf.take 8).2.2 :=
+  header_cut_is_error witBuf witBuf_wf 8 (by decide) (by decide)
+
+/-- non-vacuity of `skip_cut_is_error`: a frame remainder of 256 bytes of which only 5 arrive -/
+example : (witBuf.skip 256).1 = some .eof ∧ (witBuf.skip 256).2.pending = [] ∧ WF (witBuf.skip 256).2 ∧
+    Same witBuf (witBuf.skip 256).2 :=
+  skip_cut_is_error witBuf witBuf_wf 256 (by decide)
+
+/-- a drained source: nothing buffered, the transport script exhausted, its timeout error latched -/
+def witDrained : Buf := { size := 4096, buf := [], err := some (.transport 7), t := { chunks := [], term := .transport 7 }, total := 5 }
+
+def witDrained_wf : WF witDrained :=
+  ⟨by decide, by decide, by decide, (by intro e h; cases h; exact ⟨rfl, rfl⟩)⟩
+
+/-- non-vacuity of `error_repeats` (latched error) -/
+example : (witDrained.read 512).2.1 = some (.transport 7) ∧ (witDrained.read 512).2.2.pending = [] :=
+  error_repeats witDrained witDrained_wf 512 (by decide) rfl
+
+/-- … and on the state after that Read (error no longer latched, transport sticky) -/
+example : ((witDrained.read 512).2.2.read 512).2.1 = some (.transport 7) ∧ ((witDrained.read 512).2.2.read 512).2.2.pending = [] :=
+  error_repeats (witDrained.read 512).2.2 (read_spec witDrained witDrained_wf 512 (by decide)).2.2.2.2.2.1 512 (by decide)
+    (error_repeats witDrained witDrained_wf 512 (by decide) rfl).2
+
+/-- a client connection whose reader failed with the 1006 unexpected-EOF error (a message reader had
+    been handed out before, a ping was handled) -/
+def witFailed : Conn :=
+  { w := { newW false 4096 false false with keys := [1, 2, 3, 4] },
+    r := { isServer := false, nego := false, readErr := some .unexpectedEOF, errCount := 3,
+           msgReader := some 0, nextId := 1, hlog := [.ping [1]], final := false,
+           buf := { size := 4096, buf := [], total := 5 } } }
+
+/-- non-vacuity of `error_is_permanent` -/
+example : ∃ c', nextReader witFailed = (.err .unexpectedEOF, c') ∧ c'.r.readErr = some .unexpectedEOF ∧ c'.w = witFailed.w ∧
+      c'.r.hlog = witFailed.r.hlog ∧ c'.r.buf = witFailed.r.buf ∧ c'.r.errCount = 4 :=
+  error_is_permanent witFailed _ rfl (by decide)
+
+/-- non-vacuity of `no_data_after_error` -/
+example : ((mrRead witFailed 0 512).1).1 = [] ∧ ((mrRead witFailed 0 512).1).2.isSome ∧ (mrRead witFailed 0 512).2.w = witFailed.w :=
+  no_data_after_error witFailed _ rfl 0 512
+
+/-- a text message "Hello" in two fragments ("Hel" non-final, "lo" final) with a ping "p" in between,
+    each frame masked with its own key (the reader is a server) -/
+def witMsg : List PFrame :=
+  [{ op := 1, fin := false, key := ⟨0x37, 0xfa, 0x21, 0x3d⟩, payload := [0x48, 0x65, 0x6c] },
+   { op := 9, fin := true, key := ⟨1, 2, 3, 4⟩, payload := [0x70] },
+   { op := 0, fin := true, key := ⟨0xa0, 0xb0, 0xc0, 0xd0⟩, payload := [0x6c, 0x6f] }]
+
+def witMsg_shape : MsgShape 1 witMsg :=
+  MsgShape.frag _ _ rfl rfl (by decide)
+    (Tail.ctl _ _ ⟨Or.inl rfl, rfl, by decide⟩ (Tail.last _ rfl rfl (by decide)))
+
+example : (encAll true witMsg).length = 24 := by decide
+
+/-- a server connection, reader idle; of the 24 wire bytes of `witMsg` only the first `cut` arrive
+    (5 already buffered, the rest in chunks of 7), then EOF (`together`: with the last bytes) -/
+def witCut (cut : Nat) (together : Bool) : Conn :=
+  { w := newW true 4096 false false,
+    r := { isServer := true, nego := false, hlog := [.pong []],
+           buf := { size := 4096, buf := ((encAll true witMsg).take cut).take 5,
+                    t := { chunks := [(((encAll true witMsg).take cut).drop 5).take 7, ((encAll true witMsg).take cut).drop 12],
+                           term := .eof, together := together },
+                    total := 24 } } }
+
+/-- cut at byte 21: inside the masking key of the final continuation frame -/
+def witCut_idle : ReaderIdle (witCut 21 true) :=
+  ⟨rfl, rfl, rfl, ⟨by decide, by decide, by decide, (by intro e h; cases h)⟩, by decide, by decide,
+    (by intro id h; cases h), (by intro id h; cases h)⟩
+
+/-- non-vacuity of `cut_never_complete`: all hypotheses hold for `witCut 21 true`, reads of 2 bytes -/
+example : (∃ e, openAndRead (witCut 21 true) 2 = .failedOpen e ∧ (witCut 21 true).r.errCount + 1 < 1000) ∨
+    (∃ got e, openAndRead (witCut 21 true) 2 = .failedRead 1 got e ∧ e ≠ .eof ∧ got <+: dataPayload witMsg) ∨
+    (1000 ≤ (witCut 21 true).r.errCount + 1 ∧ openAndRead (witCut 21 true) 2 = .panicked) :=
+  cut_never_complete (witCut 21 true) witCut_idle 1 (Or.inl rfl) witMsg witMsg_shape 21 (by decide) (by decide)
+    (by decide) (by decide) 2 (by decide)
+
+/-- non-vacuity of `cut_never_complete_reachable`: additionally `CountInv` -/
+example : (∃ e, openAndRead (witCut 21 true) 2 = .failedOpen e) ∨
+    (∃ got e, openAndRead (witCut 21 true) 2 = .failedRead 1 got e ∧ e ≠ .eof ∧ got <+: dataPayload witMsg) :=
+  cut_never_complete_reachable (witCut 21 true) witCut_idle (fun _ => rfl) 1 (Or.inl rfl) witMsg witMsg_shape 21
+    (by decide) (by decide) (by decide) (by decide) 2 (by decide)
+
+/-- what actually happens there: the first fragment's payload is delivered, then the 1006 error -/
+example : openAndRead (witCut 21 true) 2 = .failedRead 1 [0x48, 0x65, 0x6c] .unexpectedEOF := by rfl
+
+def witWhole_idle : ReaderIdle (witCut 24 false) :=
+  ⟨rfl, rfl, rfl, ⟨by decide, by decide, by decide, (by intro e h; cases h)⟩, by decide, by decide,
+    (by intro id h; cases h), (by intro id h; cases h)⟩
+
+/-- non-vacuity of `whole_message_then_error`: all 24 bytes arrive, EOF afterwards; reads of 2 bytes -/
+example : openAndRead (witCut 24 false) 2 = .complete 1 [0x48, 0x65, 0x6c, 0x6c, 0x6f] :=
+  whole_message_then_error (witCut 24 false) witWhole_idle 1 (Or.inl rfl) witMsg witMsg_shape (by decide) rfl
+    (by decide) (by decide) 2 (by decide)
+
+def witCut_reachInv : ReachInv (witCut 21 true) := ⟨fun _ => rfl, witCut_idle.wf, witCut_idle.fuel⟩
+
+/-- non-vacuity of `reach_inv_nextReader` -/
+example : ReachInv (nextReader (witCut 21 true)).2 := reach_inv_nextReader _ witCut_reachInv
+
+/-- non-vacuity of `reach_inv_read`: a Read(2) on the message reader just opened -/
+example : ReachInv (mrRead (nextReader (witCut 21 true)).2 0 2).2 :=
+  reach_inv_read _ 0 2 (by decide) (reach_inv_nextReader _ witCut_reachInv)
+
+end NonVacuity
+
 end WS.Props.C05
